@@ -49,7 +49,7 @@ func init() {
 			n := r.Intn(4)
 			var cs []string
 			for i := 0; i < n; i++ {
-				cs = append(cs, pick(r, []string{"root", "root-evil", "ro", "a", "ab", "b", "root2"}))
+				cs = append(cs, pick(r, []string{"root", "root-evil", "ro", "a", "ab", "b", "root2", "Root", "ROOT", "A", "aB", "roſt"}))
 			}
 			return "/" + strings.Join(cs, "/")
 		}
